@@ -35,6 +35,9 @@ def run(ctx):
     from . import c07
     for c_ in ('x86_64', 'x86_64+release'):      # +release: what cfg(debug_assertions) hides from a dev build
         ctx.guard('C05.analysable', ctx.shared, {'C07.atomic': 'C05.g-failed-call-leaves-no-trace'}, c07.check_cfg, ctx, ctx.facts(c_), c_)
+    ctx.rule('C05.j-store-geometry-rewritten', 'the shard store rewrites its whole geometry (every field, on every path) at each resize, so that nothing of an earlier configuration (stride, byte length) shapes a later round (clause shared with C04.d)')
+    from . import c04 as c04_
+    ctx.guard('C05.analysable', c04_.store_resize_complete, ctx, ctx.facts('x86_64'), 'x86_64', 'C05.j-store-geometry-rewritten')
     ctx.rule('C05.i-new-and-reset-decide-alike', 'new and reset of the default rate take the rate from the one decision function on (original_count, recovery_count): a reset codec is the codec a fresh one would be (clause shared with C09.b)')
     from . import c09 as c09_
     ctx.guard('C05.analysable', ctx.shared, {'C09.b-single-source': 'C05.i-new-and-reset-decide-alike'}, c09_.check, ctx, ctx.facts('x86_64'), 'x86_64')
@@ -542,6 +545,13 @@ def hidden_inputs(ctx, facts, cfg):
     seen, parent = cg.reachable(roots)
     ctx.floor(R, 60, len(roots), 'API entry points', cfg=cfg)
     lazies = {p for p, s in facts.statics.items() if s['ty'].startswith('std::sync::LazyLock<') and not s['mutable']}
+    # a once-only table in a OnceLock, touched only through get / get_or_init (first writer's value is everybody's value), is a
+    # lazy table too; any other use of a OnceLock (set, take, get_mut) keeps it a hidden input
+    other_uses = any(re.match(r'^std::sync::OnceLock::<T>::(?!get$|get_or_init$|new$)', t['callee'].get('path') or '')
+                     for f in facts.fns.values() for b, t in f.body.calls())
+    if not other_uses:
+        lazies |= {p for p, s in facts.statics.items() if s['ty'].startswith('std::sync::OnceLock<') and not s['mutable']
+                   and not re.search(r'\b(Cell|RefCell|Atomic\w*|Mutex|RwLock)\b', s['ty'][len('std::sync::OnceLock<'):])}
     from .c16 import static_refs
     nf = 0
     for p in sorted(seen):
